@@ -359,10 +359,12 @@ def main():
     jobs, chain_jobs, fam = [], [], []
     for cfgd in configs(tier, scratch):
         firsts = ops_for(ids, [0, 1, 2])
+        # thorough: the deepest trees for the tightest capacities (every eviction happens there), one level less for the rest of the grid
+        d_here = depth if tier == "quick" or (cfgd["item_cap"] == 1 and cfgd["bundle_cap"] == 1) else depth - 1
         for i, o in enumerate(firsts):
-            jobs.append((cfgd, i, o, depth, ids, out_dir))
+            jobs.append((cfgd, i, o, d_here, ids, out_dir))
         chain_jobs.append((cfgd, 40 if tier == "quick" else 150, 12 if tier == "quick" else 16, seed * 1000 + len(chain_jobs), out_dir))
-        fam.append({"config": cfgd["tag"], "depth": depth, "ids": ids, "exhaustive": True})
+        fam.append({"config": cfgd["tag"], "depth": d_here, "ids": ids, "exhaustive": True})
     # one configuration with three ids (LRU eviction orders need a third item)
     cfg3 = dict(family="unit", item_cap=2, bundle_cap=1, max_rows=2, scratch=scratch, puts_bundle=True, tag="unit3_i2_b1_m2")
     d3 = 3 if tier == "quick" else 4
